@@ -96,13 +96,20 @@ theorem no_location_never_in_window (q : Query) (oa : Option Bool) (r : XRec) (h
   · obtain ⟨b, hb⟩ := Option.isSome_iff_exists.mp h
     cases ha : q.start <;> simp [hb, hr]
 
-/-- the rows `get_features_matching` selects (before the feature dicts are built) are exactly the rows
-of the linear scan: tables in `table_names` order, each with its own copy of the arguments -/
-theorem features_selection_is_scan (db : XDb) (q : Query) (oa : Option Bool) (hdb : db.WF)
+/-- any of the three table loops, once the generated pieces are replaced by their plain reading -/
+theorem tableQuery_plain (keep : String → Bool) (hk : ∀ n, keep n = decide (n = "user")) (db : XDb) (q : Query) (oa : Option Bool) :
+    tableQuery keep db q oa = fun n => (db.table n).filter (xRowMatches q (if n = "user" then oa else none)) := by
+  funext n
+  unfold tableQuery
+  rw [hk n]
+  by_cases h : n = "user" <;> simp [h]
+
+/-- visiting `["user"] if on_alignment else table_names`, every table with its own copy of the arguments
+(`on_alignment` kept for `user` only), selects exactly the rows of the linear scan -/
+theorem table_loop_is_scan (db : XDb) (q : Query) (oa : Option Bool) (hdb : db.WF)
     (hw : ∀ r ∈ db.records, XWinHyp q r) :
-    selectFeaturesX db q oa = xLinearScan db.records q oa := by
-  unfold selectFeaturesX
-  rw [(tables_choice oa _).1]
+    ((if oa = some true then ["user"] else tableNames db.kind).flatMap fun n =>
+      (db.table n).filter (xRowMatches q (if n = "user" then oa else none))) = xLinearScan db.records q oa := by
   unfold xLinearScan XDb.records
   have hu : ∀ r ∈ db.user, xRowMatches q oa r = xSpecMatch q oa r := fun r hr =>
     xRow_user clauses_ok q oa r (hdb.user r hr) (hw r (by
@@ -122,6 +129,15 @@ theorem features_selection_is_scan (db : XDb) (q : Query) (oa : Option Bool) (hd
     · simp [tableNames, XDb.table, hoa, List.filter_append, List.filter_congr hu,
         List.filter_congr (fun r hr => hm r hr (by simp [hk]))]
 
+/-- the rows `get_features_matching` selects (before the feature dicts are built) are exactly the rows
+of the linear scan: tables in `table_names` order, each with its own copy of the arguments -/
+theorem features_selection_is_scan (db : XDb) (q : Query) (oa : Option Bool) (hdb : db.WF)
+    (hw : ∀ r ∈ db.records, XWinHyp q r) :
+    selectFeaturesX db q oa = xLinearScan db.records q oa := by
+  unfold selectFeaturesX
+  rw [(tables_choice oa _).1, tableQuery_plain _ (fun n => (oa_kept_only_for_user n).1)]
+  exact table_loop_is_scan db q oa hdb hw
+
 /-- **get_features_matching = linear scan, on_alignment included.**  For every db class, every subset
 of the column arguments, every window mode, and `on_alignment` not passed / `False` / `True`: when all
 selected rows have a location, the call returns exactly the multiset the scan selects. -/
@@ -129,7 +145,7 @@ theorem features_matching_is_scan (db : XDb) (q : Query) (oa : Option Bool) (hdb
     (hw : ∀ r ∈ db.records, XWinHyp q r) (hl : ∀ r ∈ xLinearScan db.records q oa, r.located = true) :
     ∃ l, getFeaturesMatchingX db q oa = .ok l ∧ l.Perm (xLinearScan db.records q oa) := by
   unfold getFeaturesMatchingX
-  simp only [features_selection_is_scan db q oa hdb hw]
+  simp only [features_selection_is_scan db q oa hdb hw, (oa_never_reaches_main oa _).1, Bool.false_eq_true, if_false]
   rw [if_pos (List.all_eq_true.mpr fun r hr => by simpa using hl r hr)]
   exact ⟨_, rfl, List.Perm.refl _⟩
 
@@ -157,74 +173,54 @@ example :
     getFeaturesMatchingX db { seqid := some "s1" } none = .ok [g, u, a] := by
   decide +kernel
 
-/-- `get_records_matching` returns the scan's multiset whenever `on_alignment` is not handed to a gff / gb
-table: argument absent, `True` (only `user` is visited), or a `BasicAnnotationDb`. -/
-theorem records_matching_is_scan_partial (db : XDb) (q : Query) (oa : Option Bool) (hdb : db.WF)
-    (hw : ∀ r ∈ db.records, XWinHyp q r) (hoa : oa ≠ some false ∨ db.kind = .basic) :
+/-- **get_records_matching = linear scan, on_alignment included** (code as repaired by 26f741b86): for every db
+class, argument subset, window mode and `on_alignment` not passed / `False` / `True` the call returns exactly the
+multiset the scan selects — rows without a location included, no exception. -/
+theorem records_matching_is_scan (db : XDb) (q : Query) (oa : Option Bool) (hdb : db.WF)
+    (hw : ∀ r ∈ db.records, XWinHyp q r) :
     ∃ l, getRecordsMatchingX db q oa = .ok l ∧ l.Perm (xLinearScan db.records q oa) := by
-  have key := features_selection_is_scan db q oa hdb hw
-  unfold selectFeaturesX at key
-  rw [(tables_choice oa _).1] at key
   unfold getRecordsMatchingX
-  rw [(tables_choice oa _).2]
-  rcases oa with _ | _ | _
-  · simp only [Option.isSome_none, Bool.false_and, Bool.false_eq_true, if_false]
-    refine ⟨_, rfl, ?_⟩
-    rw [← key]; simp
-  · cases hk : db.kind
-    · simp only [tableNames]
-      refine ⟨_, rfl, ?_⟩
-      rw [← key]; simp [hk, tableNames]
-    · simp [hk] at hoa
-    · simp [hk] at hoa
-  · simp only [if_true]
-    refine ⟨_, rfl, ?_⟩
-    rw [← key]; simp
+  simp only [(oa_never_reaches_main oa _).2.1, Bool.false_eq_true, if_false]
+  refine ⟨_, rfl, ?_⟩
+  rw [(tables_choice oa _).2.1, tableQuery_plain _ (fun n => (oa_kept_only_for_user n).2.1),
+    table_loop_is_scan db q oa hdb hw]
 
-/- FULL STATEMENT (not proved): the same for `on_alignment=False` on a GffAnnotationDb / GenbankAnnotationDb.
-   False of the mirrored model and of the code (open finding C17-on-alignment-argument-no-such-column). -/
-theorem records_matching_on_alignment_counter :
+-- the input of the former finding C17-on-alignment-argument-no-such-column, and a record without location
+example :
     let g : XRec := { row := mkUserRec "s1" "gene" "ab0" (some "+") none [(0, 5)], located := true, onAln := none }
-    let db : XDb := { kind := .gff, main := [g], user := [] }
-    getRecordsMatchingX db {} (some false) = .error .operationalError ∧
-    numMatchesX db {} (some true) = .error .operationalError ∧
-    getFeaturesMatchingX db {} (some false) = .ok [g] ∧ xLinearScan db.records {} (some false) = [g] := by
+    let b : XRec := { row := { (mkUserRec "s1" "cds" "b" none none []) with spans := [] }, located := false, onAln := none }
+    let a : XRec := { row := mkUserRec "s1" "gene" "aln0" (some "+") none [(3, 9)], located := true, onAln := some true }
+    let db : XDb := { kind := .genbank, main := [g, b], user := [a] }
+    getRecordsMatchingX db {} (some false) = .ok [g, b] ∧ numMatchesX db {} (some true) = .ok 1 ∧
+    numMatchesX db {} (some false) = .ok 2 ∧ getRecordsMatchingX db { biotype := some "cds" } none = .ok [b] ∧
+    getRecordsMatchingX db {} (some true) = .ok [a] := by
   decide +kernel
 
-/-- `num_matches` (no window) is the length of the scan whenever `on_alignment` is absent or the db has
-only the `user` table. -/
-theorem num_matches_x_is_scan_count_partial (db : XDb) (q : Query) (oa : Option Bool) (hdb : db.WF)
-    (hoa : oa = none ∨ db.kind = .basic) :
+/-- **num_matches = length of the scan** (no window), for every db class, argument subset and `on_alignment`
+not passed / `False` / `True` (code as repaired by 26f741b86). -/
+theorem num_matches_x_is_scan_count (db : XDb) (q : Query) (oa : Option Bool) (hdb : db.WF) :
     numMatchesX db q oa = .ok (xLinearScan db.records { q with start := none, stop := none } oa).length := by
   have hc : ∀ r : XRec, countMatches q r.row = xColsMatch { q with start := none, stop := none } r.row := by
     intro r
     unfold countMatches countConds xColsMatch
     simp only [List.all_append, optCond_spec]
     rw [Bool.and_comm (optMatch q.seqid r.row.seqid)]
-  have hwin : ∀ r : XRec, xWindowMatch { q with start := none, stop := none } r = true := by
-    intro r; simp [xWindowMatch]
-  unfold numMatchesX xLinearScan XDb.records
-  rcases hoa with h | h
-  · subst h
-    simp only [Option.isSome_none, Bool.false_and, Bool.false_eq_true, if_false]
-    congr 2
-    rw [filter_flatMap]
-    congr 1
-    funext n
-    apply List.filter_congr
-    intro r _
-    simp [xSpecMatch, oaMatch, oaCond, hc, hwin]
-  · have hu : ∀ r ∈ db.user, oaCond oa r = oaMatch oa r := by
-      intro r hr
-      obtain ⟨b, hb⟩ := Option.isSome_iff_exists.mp (hdb.user r hr)
-      unfold oaCond oaMatch isAlignmentFeature
-      rcases oa with _ | _ | _ <;> cases b <;> simp [hb]
-    simp only [h, tableNames, List.any_cons, List.any_nil, bne_self_eq_false, Bool.or_false, Bool.and_false,
-      Bool.false_eq_true, if_false, List.flatMap_cons, List.flatMap_nil, List.append_nil, XDb.table, if_true]
-    congr 2
-    apply List.filter_congr
-    intro r hr
-    simp [xSpecMatch, hc, hwin, hu r hr, Bool.and_comm]
+  have hrow : ∀ r : XRec, ∀ o, (countMatches q r.row && oaCond o r) = xRowMatches { q with start := none, stop := none } o r := by
+    intro r o
+    unfold xRowMatches
+    rw [xCols_spec, hc]
+    simp [xWindow, windowConds]
+  have hw : ∀ r ∈ db.records, XWinHyp { q with start := none, stop := none } r := fun r _ => Or.inl (Or.inr (Or.inl rfl))
+  unfold numMatchesX
+  simp only [(oa_never_reaches_main oa _).2.2, Bool.false_eq_true, if_false]
+  rw [← table_loop_is_scan db _ oa hdb hw, (tables_choice oa _).2.2]
+  congr 3
+  funext n
+  rw [(oa_kept_only_for_user n).2.2]
+  apply List.filter_congr
+  intro r _
+  rw [hrow]
+  by_cases h : n = "user" <;> simp [h]
 
 /-- `subset(**query)` holds exactly the rows the scan selects (rows without location included when no
 window is asked), for every query; the bounds reach the WHERE clause unchanged. -/
@@ -232,9 +228,7 @@ theorem subset_x_is_scan (db : XDb) (q : Query) (hdb : db.WF) (hw : ∀ r ∈ db
     (subsetX db q).kind = db.kind ∧ (subsetX db q).records.Perm (xLinearScan db.records q none) := by
   have hq : ({ q with start := subsetStart q.start, stop := subsetStop q.stop } : Query) = q := by
     rw [(subset_bounds_identity _).1, (subset_bounds_identity _).2]
-  have key := features_selection_is_scan db q none hdb hw
-  unfold selectFeaturesX at key
-  rw [(tables_choice none _).1] at key
+  have key := table_loop_is_scan db q none hdb hw
   unfold subsetX
   rw [hq]
   split
@@ -256,6 +250,41 @@ example :
     let u : XRec := { row := mkUserRec "s1" "gene" "u0" (some "+") none [(2, 4)], located := true, onAln := some true }
     let db : XDb := { kind := .genbank, main := [g, b], user := [u] }
     (subsetX db { start := some 0, stop := some 6 }).records = [g, u] ∧ (subsetX db { seqid := some "s1" }).records = [g, b, u] := by
+  decide +kernel
+
+/-! ### to_json / from_dict of rows without a location (code as repaired by 26f741b86) -/
+
+/-- **One stored row survives `to_rich_dict` → `from_dict` unchanged** whichever optional columns are NULL —
+including a row with NO location (no spans / start / stop key in the dict) and the `on_alignment` flag. -/
+theorem richdict_x_row_roundtrip (r : XRec) (hn : r.normal = true) : richToXRec (xrecToRich r) = r := by
+  obtain ⟨⟨a, b, c, d, e, sp, s, t⟩, loc, oa⟩ := r
+  cases loc
+  · simp only [XRec.normal, Bool.false_or, Bool.and_eq_true, beq_iff_eq] at hn
+    obtain ⟨⟨h1, h2⟩, h3⟩ := hn
+    subst h1 h2 h3
+    cases a <;> cases b <;> cases c <;> cases d <;> cases e <;> rcases oa with _ | _ | _ <;>
+      simp [xrecToRich, richToXRec, richToRec, optField, getStr, List.lookup]
+  · cases a <;> cases b <;> cases c <;> cases d <;> cases e <;> rcases oa with _ | _ | _ <;>
+      simp [xrecToRich, richToXRec, richToRec, optField, getStr, List.lookup]
+
+/-- `deserialise_object(db.to_json())` of an in-memory db of any class holds exactly the same rows, table by
+table — records without a location and alignment features included. -/
+theorem to_json_x_roundtrip (db : XDb) (hn : ∀ r ∈ db.main ++ db.user, r.normal = true) : jsonRoundTripX db = db := by
+  have hm : ∀ l : List XRec, (∀ r ∈ l, r.normal = true) → (l.map fun r => richToXRec (xrecToRich r)) = l := by
+    intro l hl
+    conv => rhs; rw [← List.map_id l]
+    exact List.map_congr_left fun r hr => richdict_x_row_roundtrip r (hl r hr)
+  obtain ⟨k, m, u⟩ := db
+  unfold jsonRoundTripX
+  simp only [hm m fun r hr => hn r (List.mem_append_left _ hr), hm u fun r hr => hn r (List.mem_append_right _ hr)]
+
+example :
+    let g : XRec := { row := mkUserRec "s1" "gene" "ga" (some "+") none [(0, 6)], located := true, onAln := none }
+    let b : XRec := { row := { (mkUserRec "s1" "cds" "b" none none []) with spans := [] }, located := false, onAln := none }
+    let u : XRec := { row := mkUserRec "s1" "gene" "u0" (some "+") none [(2, 4)], located := true, onAln := some true }
+    let db : XDb := { kind := .genbank, main := [g, b], user := [u] }
+    (jsonRoundTripX db).main = [g, b] ∧ (jsonRoundTripX db).user = [u] ∧ (xrecToRich b).lookup "spans" = none ∧
+    (∀ r ∈ db.main ++ db.user, r.normal = true) := by
   decide +kernel
 
 /-! ### GenbankAnnotationDb.add_records -/
